@@ -536,6 +536,11 @@ func (e *SpecEnv) Eval(x *SX) (Term, error) {
 						if c, ok := tp.Scope().Lookup(x.Name).(*types.Const); ok {
 							return constTerm(e.ss(), c)
 						}
+						if e.lookup != nil {
+							if t, ok := e.lookup(id.Name+"."+x.Name, e.inOld); ok {
+								return t, nil
+							}
+						}
 						return Term{}, fmt.Errorf("unknown constant %s.%s", id.Name, x.Name)
 					}
 				}
